@@ -281,6 +281,12 @@ fn generate_runs(run_seed: u64, tier: Tier) -> RunsScenario {
     if !steps.iter().any(|s| matches!(s, Step::Post { .. })) {
         steps.push(Step::Post { thread: 0, content: Content::Prompt("hello".into()), wait: true });
     }
+    // own sub-stream: 1 in 5 scripts carry a byte that is not UTF-8 in the middle of a response
+    let mut script = script;
+    let mut irng = Rng::derive(run_seed, "c07:invalid-byte");
+    if irng.chance(1, 5) {
+        crate::esim::inject_invalid_byte(&mut script, &mut irng);
+    }
     RunsScenario { cfg, with_provider, script, steps }
 }
 
